@@ -155,6 +155,15 @@ class ReqC07Part(Part):
             q.append("cdf %d %d %s" % (sid, rng.randrange(2), " ".join(str(p) for p in pts)))
         if rng.random() < 0.3:
             q.append("bounds %d %s %d" % (sid, f64hex(rng.random()), rng.randrange(1, 4)))
+        if items and rng.random() < 0.5:
+            # the published bounds have a zero-width region at the accurate end (the items level 0 never compacts: 3k of them, whatever
+            # level 0 has grown to since): bounds on both sides of that threshold, and across the multiples of k beyond it
+            n = len(items)
+            for k in (4, 6, 8, 10, 12, 20):
+                for j in (3 * k - 1, 3 * k, 3 * k + 1, 4 * k, 5 * k, 6 * k + 1):
+                    if j < n and rng.random() < 0.35:
+                        for r in (1.0 - j / n, j / n):
+                            q.append("bounds %d %s %d" % (sid, f64hex(r), rng.randrange(1, 4)))
         return q
 
     def generate(self, rng, tier):
